@@ -253,8 +253,8 @@ def monotone(ctx: Ctx, rs: RustProgram) -> None:
 
 def cpu_task(ctx: Ctx, rs: RustProgram) -> None:
     fn = rs.fn("core/src/async_cpu.rs", "AsyncCpuHandle::run_instructions")
-    loops = [l for l in walk(fn.body) if l.get("k") == "for"]
-    ctx.need(len(loops) == 1, "AsyncCpuHandle::run_instructions: instruction loop not found")
+    loops = [l for l in walk(fn.body) if l.get("k") in ("for", "while", "loop")]
+    ctx.need(len(loops) == 1, f"AsyncCpuHandle::run_instructions: expected one instruction loop, found {len(loops)}")
     body = loops[0]["body"]
     seq = []
     for nd in walk(body):
@@ -267,8 +267,19 @@ def cpu_task(ctx: Ctx, rs: RustProgram) -> None:
     if [(k, v) for _l, k, v in seq] != [("sleep", "sleep_cycles(1)"), ("step", "1")]:
         ctx.violation("C18.4/cpu-task", key_of(fn.file, fn.qual, "loop-body"), f"CPU task body is {[(k, v) for _l, k, v in seq]}; expected one `sleep_cycles(1).await` then one `step(1)` per instruction", fn.where)
     n += 1
-    if expr_text(loops[0]["iter"]) != "0..instructions":
-        ctx.violation("C18.4/cpu-task", key_of(fn.file, fn.qual, "loop-range"), f"CPU task iterates `{expr_text(loops[0]['iter'])}`, not once per requested instruction", fn.where)
+    lp = loops[0]
+    if lp["k"] == "for":
+        if expr_text(lp["iter"]) != "0..instructions":
+            ctx.violation("C18.4/cpu-task", key_of(fn.file, fn.qual, "loop-range"), f"CPU task iterates `{expr_text(lp['iter'])}`, not once per requested instruction", fn.where)
+    else:
+        # a counting while-loop is the same thing only if its counter goes up by exactly one per iteration, whatever the step did
+        cond = expr_text(lp.get("cond", {})).replace(" ", "")
+        ctr = cond.split("<")[0] if "<" in cond else None
+        incs = [expr_text(a["r"]) for a in walk(body) if a.get("k") == "opassign" and a["op"] == "+" and expr_text(a["l"]) == ctr]
+        if ctr is None or incs != ["1"]:
+            ctx.violation("C18.4/cpu-task", key_of(fn.file, fn.qual, "loop-range"),
+                          f"CPU task loops `while {cond}` with `{ctr}` advanced by {incs or 'nothing'}: the number of steps depends on what the steps did (a halted core retires nothing), "
+                          "while the synchronous loop performs exactly the requested number of steps", fn.where)
     # the runner spawns the task on a driver whose clock starts at the runtime's cycle count
     rn = rs.fn("core/src/async_runtime.rs", "AsyncRuntimeRunner::new")
     n += 1
